@@ -29,7 +29,8 @@ fn bases() -> Vec<(String, String)> {
     out
 }
 
-const OFFENDERS: [&str; 5] = ["@", "}", "Zed", "Zed::Q {}", "\"日本\""];
+// the last three put a multi-byte character exactly where the parser stops (alone, glued to the next token, 4 bytes)
+const OFFENDERS: [&str; 8] = ["@", "}", "Zed", "Zed::Q {}", "\"日本\"", "é", "€", "🎉"];
 
 fn span_info(span: &tx3_lang::ast::Span) -> (bool, usize, usize) {
     let v = serde_json::to_value(span).unwrap_or(Value::Null);
@@ -204,7 +205,8 @@ impl Prop for C19 {
                 for t in toks.iter() {
                     sink.case(|| {
                         let mut s = src.clone();
-                        s.insert_str(t.start, &format!("{off} "));
+                        // "€" goes in without a separating blank: the character after the error position is the next token's
+                        s.insert_str(t.start, &if off == "€" { off.to_string() } else { format!("{off} ") });
                         json!({"kind": "inject", "base": name, "at": t.start, "token": off, "src": s})
                     });
                 }
